@@ -18,6 +18,7 @@ import (
 	_ "verif/checks/c12"
 	_ "verif/checks/c14"
 	_ "verif/checks/c15"
+	_ "verif/checks/c17"
 	_ "verif/checks/c19"
 )
 
